@@ -71,21 +71,44 @@ func (c *manualCtx) end(err error) {
 const (
 	flCancel   = "cancel"
 	flDeadline = "deadline"
+	// the same two ends with a CAUSE recorded (context.WithCancelCause / WithDeadlineCause): ctx.Err() is still
+	// context.Canceled / DeadlineExceeded, context.Cause(ctx) is an application error of no common kind
+	flCancelCause   = "cancel-with-cause"
+	flDeadlineCause = "deadline-with-cause"
+)
+
+var errCause = errors.New("node is being drained")
+
+// preFlavours: the ways a context can be done at the call. midFlavours: the ways it can end while the call runs.
+var (
+	preFlavours = []string{flCancel, flDeadline, flCancelCause, flDeadlineCause}
+	midFlavours = []string{flCancel, flDeadline}
 )
 
 // liveCtx returns a context that is alive and a trigger that ends it (synchronously) in the given flavour.
 func liveCtx(flavour string) (context.Context, func()) {
-	if flavour == flDeadline {
+	if flavour == flDeadline || flavour == flDeadlineCause {
 		c := newManualCtx()
 		return c, func() { c.end(context.DeadlineExceeded) }
+	}
+	if flavour == flCancelCause {
+		ctx, cancel := context.WithCancelCause(context.Background())
+		return ctx, func() { cancel(errCause) }
 	}
 	return context.WithCancel(context.Background())
 }
 
 // deadCtx returns a context that is already done at the call: cancelled, or with an expired deadline.
 func deadCtx(flavour string) (context.Context, func()) {
-	if flavour == flDeadline {
+	switch flavour {
+	case flDeadline:
 		return context.WithDeadline(context.Background(), time.Unix(1, 0))
+	case flDeadlineCause:
+		return context.WithDeadlineCause(context.Background(), time.Unix(1, 0), errCause)
+	case flCancelCause:
+		ctx, cancel := context.WithCancelCause(context.Background())
+		cancel(errCause)
+		return ctx, func() {}
 	}
 	ctx, cancel := context.WithCancel(context.Background())
 	cancel()
